@@ -243,9 +243,11 @@ Inductive wire :=
   | WConnect     (* CONNECT authority request *)
   | WSocks.      (* SOCKS5 handshake *)
 
+(* named: the target the first hop is told (CONNECT authority, authority of the absolute URI, SOCKS5 target
+   address, Host field of an origin-form request); [] for a direct tunnel, where the proxy says nothing itself *)
 Inductive outcome :=
-  | OFail                                           (* request fails, nothing is dialled *)
-  | OSent (addr : str) (tls : bool) (w : wire).     (* connection opened to addr (after connect-to) *)
+  | OFail                                                       (* request fails, nothing is dialled *)
+  | OSent (addr : str) (tls : bool) (w : wire) (named : str).   (* connection opened to addr (after connect-to) *)
 
 (* connect's `switch proxyURL.Scheme` *)
 Definition connect_handler (scheme : str) : option str := assoc scheme connect_switch.
@@ -267,14 +269,15 @@ Definition canonical_addr (scheme hostport : str) : str :=
 Definition route_connect (rules : list rule) (pr : presult) (t : target) : outcome :=
   match pr with
   | PFail => OFail
-  | PDirect => OSent (dial_redirect rules (t_urlhost t)) false WDirect
+  | PDirect => OSent (dial_redirect rules (t_urlhost t)) false WDirect []
   | PUrl sch hp =>
       match connect_handler sch with
       | None => OFail                                (* default arm: unsupported proxy scheme *)
       | Some h =>
+          (* both dialers are asked for req.URL.Host: dialvia/http.go writes `CONNECT addr`, socks5 sends addr *)
           if str_eqb h (b "connectSOCKS5")
-          then OSent (dial_redirect rules (connect_addr h hp)) false WSocks
-          else OSent (dial_redirect rules (connect_addr h hp)) (str_eqb sch dialvia_http_tls_scheme) WConnect
+          then OSent (dial_redirect rules (connect_addr h hp)) false WSocks (t_urlhost t)
+          else OSent (dial_redirect rules (connect_addr h hp)) (str_eqb sch dialvia_http_tls_scheme) WConnect (t_urlhost t)
       end
   end.
 
@@ -284,12 +287,14 @@ Definition route_plain (rules : list rule) (pr : presult) (t : target) : outcome
   match pr with
   | PFail => OFail
   | PDirect => OSent (dial_redirect rules (canonical_addr (t_scheme t) (t_urlhost t)))
-                     (str_eqb (t_scheme t) (b "https")) WDirect
+                     (str_eqb (t_scheme t) (b "https")) WDirect (t_urlhost t)
   | PUrl sch hp =>
       let addr := dial_redirect rules (canonical_addr sch hp) in
-      if mem sch transport_socks_schemes then OSent addr false WSocks
-      else OSent addr (str_eqb sch (b "https"))
-                 (if str_eqb (t_scheme t) (b "http") then WAbs else WConnect)
+      let target := canonical_addr (t_scheme t) (t_urlhost t) in     (* cm.targetAddr *)
+      if mem sch transport_socks_schemes then OSent addr false WSocks target
+      else if str_eqb (t_scheme t) (b "http")
+           then OSent addr (str_eqb sch (b "https")) WAbs (t_urlhost t)   (* absolute URI with the request's host *)
+           else OSent addr (str_eqb sch (b "https")) WConnect target
   end.
 
 Definition route (cfg : config) (rules : list rule) (t : target) : outcome :=
@@ -303,17 +308,17 @@ Definition route (cfg : config) (rules : list rule) (t : target) : outcome :=
 (* ------------------------------------------------------------------ one exchange as a trace of socket events *)
 (* net.go: Dialer.DialContext applies the redirect to every dial; dialContext retries the SAME address
    (attempts <= 0 means 1).  `failures` = how many consecutive dial attempts fail (environment). *)
-Inductive event := EvDial (addr : str) | EvUse (addr : str) (tls : bool) (w : wire).
+Inductive event := EvDial (addr : str) | EvUse (addr : str) (tls : bool) (w : wire) (named : str).
 
 Definition effective_attempts (n : nat) : nat := match n with O => 1%nat | _ => n end.
 
 Definition exchange (cfg : config) (rules : list rule) (t : target) (attempts failures : nat) : list event :=
   match route cfg rules t with
   | OFail => []
-  | OSent a tls w =>
+  | OSent a tls w n =>
       if Nat.ltb failures (effective_attempts attempts)
-      then repeat (EvDial a) (S failures) ++ [EvUse a tls w]
+      then repeat (EvDial a) (S failures) ++ [EvUse a tls w n]
       else repeat (EvDial a) (effective_attempts attempts)
   end.
 
-Definition event_addr (e : event) : str := match e with EvDial a => a | EvUse a _ _ => a end.
+Definition event_addr (e : event) : str := match e with EvDial a => a | EvUse a _ _ _ => a end.
